@@ -75,10 +75,12 @@ enum AnyTrack {
 	Plain(TrackHandle),
 	Spatial(SpatialTrackHandle),
 	Send(#[allow(dead_code)] SendTrackHandle),
+	/// the handle was dropped; the track lives on through its children (whose handles are kept)
+	Dropped,
 }
 
-const OP_NAMES: [&str; 10] = ["add_sub_track(fx)", "add_sub_track(group)", "handle.add_sub_track(fx)", "add_spatial_sub_track(fx)", "add_send_track(fx)", "change_sample_rate", "callback", "handle.add_sub_track(group)", "handle.add_spatial_sub_track(fx)", "add_sub_track(delay with fx in its feedback loop)"];
-const N_OPS: u64 = 10;
+const OP_NAMES: [&str; 11] = ["add_sub_track(fx)", "add_sub_track(group)", "handle.add_sub_track(fx)", "add_spatial_sub_track(fx)", "add_send_track(fx)", "change_sample_rate", "callback", "handle.add_sub_track(group)", "handle.add_spatial_sub_track(fx)", "add_sub_track(delay with fx in its feedback loop)", "drop the handle of a track that has children"];
+const N_OPS: u64 = 11;
 
 struct Hist {
 	rig: Rig,
@@ -86,6 +88,9 @@ struct Hist {
 	tracks: Vec<AnyTrack>,
 	probes: Vec<(String, Arc<ProbeState>)>,
 	rate_ix: usize,
+	/// index in `tracks` of the parent of every nested track
+	parent_of: Vec<(usize, usize)>,
+	last_parent: Option<usize>,
 }
 
 impl Hist {
@@ -93,7 +98,7 @@ impl Hist {
 		let main_probe = Arc::new(ProbeState::default());
 		let mut rig = Rig::new(RigConfig { sample_rate: RATES[rate_ix], ibs, ..Default::default() }, MainTrackBuilder::new().with_effect(RateProbeBuilder(main_probe.clone(), None)));
 		let listener = rig.mgr.add_listener(glam::Vec3::ZERO, glam::Quat::IDENTITY).expect("listener");
-		Hist { rig, listener, tracks: vec![], probes: vec![("main".into(), main_probe)], rate_ix }
+		Hist { rig, listener, tracks: vec![], probes: vec![("main".into(), main_probe)], rate_ix, parent_of: vec![], last_parent: None }
 	}
 	fn probe(&mut self, name: &str) -> RateProbeBuilder {
 		let p = Arc::new(ProbeState::default());
@@ -102,11 +107,13 @@ impl Hist {
 	}
 	/// the most recent non-send track (parent of nested adds)
 	fn parent(&mut self, pick: usize) -> Option<&mut AnyTrack> {
-		let idx: Vec<usize> = self.tracks.iter().enumerate().filter(|(_, t)| !matches!(t, AnyTrack::Send(_))).map(|(i, _)| i).collect();
+		let idx: Vec<usize> = self.tracks.iter().enumerate().filter(|(_, t)| !matches!(t, AnyTrack::Send(_) | AnyTrack::Dropped)).map(|(i, _)| i).collect();
 		if idx.is_empty() {
+			self.last_parent = None;
 			return None;
 		}
 		let i = idx[idx.len() - 1 - pick % idx.len()];
+		self.last_parent = Some(i);
 		self.tracks.get_mut(i)
 	}
 	fn apply(&mut self, op: u64, pick: usize, cb_frames: usize) {
@@ -135,6 +142,9 @@ impl Hist {
 					}
 				};
 				if let Some(t) = r {
+					if let Some(p) = self.last_parent {
+						self.parent_of.push((self.tracks.len(), p));
+					}
 					self.tracks.push(AnyTrack::Plain(t));
 				}
 			}
@@ -157,6 +167,15 @@ impl Hist {
 			}
 			6 => {
 				self.rig.callback(cb_frames);
+			}
+			10 => {
+				// a track outlives its handle while a track beneath it is kept: it (and everything beneath it) still has to learn
+				// every sample-rate change
+				let parents: Vec<usize> = self.parent_of.iter().map(|x| x.1).filter(|p| !matches!(self.tracks[*p], AnyTrack::Dropped)).collect();
+				if !parents.is_empty() {
+					let p = parents[pick % parents.len()];
+					self.tracks[p] = AnyTrack::Dropped;
+				}
 			}
 			9 => {
 				// an effect inside another effect: the delay must hand init / rate changes on to its feedback effects
@@ -185,6 +204,9 @@ impl Hist {
 					}
 				};
 				if let Some(t) = r {
+					if let Some(p) = self.last_parent {
+						self.parent_of.push((self.tracks.len(), p));
+					}
 					self.tracks.push(AnyTrack::Spatial(t));
 				}
 			}
@@ -192,15 +214,18 @@ impl Hist {
 	}
 	/// verdict after the history: every probe must have been told the rate in force at every process call
 	fn verdict(&mut self) -> Result<u64, String> {
+		// (a track removed earlier in the history - e.g. a parent dropped while its only child was still waiting to be picked
+		// up - is not told later rates and is not processed either: "last told" is judged for the probes still being processed)
+		let before: Vec<u64> = self.probes.iter().map(|(_, p)| p.calls.load(Ordering::SeqCst)).collect();
 		self.rig.callback(5);
 		self.rig.callback(3);
 		let cur = RATES[self.rate_ix];
 		let mut processed = 0;
-		for (name, p) in &self.probes {
+		for (k, (name, p)) in self.probes.iter().enumerate() {
 			if p.bad.load(Ordering::SeqCst) > 0 {
 				return Err(format!("effect '{}' processed with dt = 1/{} while the last sample rate it was told is {} ({} process calls affected; init calls {}, on_change_sample_rate calls {})", name, p.bad_seen.load(Ordering::SeqCst), p.bad_told.load(Ordering::SeqCst), p.bad.load(Ordering::SeqCst), p.inits.load(Ordering::SeqCst), p.changes.load(Ordering::SeqCst)));
 			}
-			if p.calls.load(Ordering::SeqCst) > 0 {
+			if p.calls.load(Ordering::SeqCst) > before[k] {
 				processed += 1;
 				if p.told.load(Ordering::SeqCst) != cur {
 					return Err(format!("effect '{}' was last told {} Hz but the device runs at {} Hz", name, p.told.load(Ordering::SeqCst), cur));
@@ -770,6 +795,46 @@ fn s_reverb(r: &mut Rng, c: &Cell) -> Result<(), String> {
 	}
 }
 
+
+/// S7: a compressor's attack time is a time in seconds: a compressor that has already run at the first rate reaches 63 % of
+/// its final gain reduction one attack time after a loud signal begins, at whatever rate the device runs by then
+fn s_compressor(r: &mut Rng, c: &Cell) -> Result<(), String> {
+	use kira::effect::compressor::CompressorBuilder;
+	let attack = r.f64_in(0.008, 0.04);
+	let b = CompressorBuilder::new().threshold(-30.0).ratio(10.0).attack_duration(Duration::from_secs_f64(attack)).release_duration(Duration::from_secs(2)).mix(Mix::WET);
+	let rig = Rig::new(RigConfig { sample_rate: c.r1, ibs: c.ibs, ..Default::default() }, MainTrackBuilder::new().with_effect(b));
+	let mut tl = Tl::new(rig, c.r2.map(|x| (c.tc, x)), r.next());
+	tl.run_until(c.tc + 0.004);
+	// (the change is applied at the first callback boundary after its time: one more callback if the last one overshot it)
+	for _ in 0..3 {
+		if c.r2.is_some() && tl.changed_at.is_none() {
+			let t = tl.t;
+			tl.run_until(t + 1e-6);
+		}
+	}
+	if c.r2.is_some() && tl.changed_at.is_none() {
+		return Err("planned rate change was never applied".into());
+	}
+	let rate = c.r2.unwrap_or(c.r1);
+	let _h = tl.rig.mgr.play(crate::probes::dc_sound(48000, 48, 0.5).loop_region(..)).map_err(|_| "play")?;
+	let t_play = tl.t;
+	tl.run_until(t_play + attack * 9.0 + 0.01);
+	let on: Vec<(f64, f64)> = tl.out.iter().filter(|x| x.0 >= t_play && x.1 > 0.0).map(|x| (x.0, 20.0 * (x.1 as f64 / 0.5).log10())).collect();
+	let (t0, last) = match (on.first(), on.last()) {
+		(Some(a), Some(b)) => (a.0, b.1),
+		_ => return Err("compressor measurement: the test signal was not heard".into()),
+	};
+	if last > -15.0 {
+		return Err(format!("compressor (threshold -30 dB, ratio 10) at {} Hz: gain reduction after 9 attack times is only {:.2} dB on a -6 dB signal", rate, last));
+	}
+	let t63 = on.iter().find(|x| x.1 <= 0.632 * last).map(|x| x.0).unwrap_or(f64::INFINITY);
+	let got = t63 - t0;
+	if (got - attack).abs() > 0.07 * attack + 3.0 / rate as f64 {
+		return Err(format!("compressor with an attack time of {:.4} s at {} Hz{}: 63 % of the final gain reduction ({:.2} dB) is reached after {:.4} s", attack, rate, if c.r2.is_some() { format!(" (after a change from {} Hz, the compressor had already run)", c.r1) } else { String::new() }, last, got));
+	}
+	Ok(())
+}
+
 // ---------------------------------------------------------------- driver
 
 const ADD_CHANGE_KEY: &str = "C16.track_added_before_rate_change_picked_up_after";
@@ -862,7 +927,7 @@ pub fn run(ctx: &mut Ctx) {
 	race_all(ctx);
 	// (B) measurements
 	let n = ctx.t(6_000u64, 2_000_000u64);
-	let mut measured = [0u64; 6];
+	let mut measured = [0u64; 7];
 	for i in 0..n {
 		if !ctx.owns("meas", i) {
 			continue;
@@ -873,7 +938,7 @@ pub fn run(ctx: &mut Ctx) {
 		}
 		let mut r = Rng::for_case(ctx.seed, 1602, i);
 		let c = gen_cell(&mut r);
-		let kind = r.below(8);
+		let kind = r.below(9);
 		ctx.eval();
 		crate::monitors::set_current(ctx, "meas", i, "seconds/hertz measurement", false);
 		let res = super::guarded(|| match kind {
@@ -882,6 +947,7 @@ pub fn run(ctx: &mut Ctx) {
 			2 => s_tween(&mut r, &c),
 			3 | 4 | 5 => s_delay(&mut r, &c),
 			6 => s_reverb(&mut r, &c),
+			8 => s_compressor(&mut r, &c),
 			_ => s_filter(&mut r, &c),
 		});
 		crate::monitors::clear_current();
@@ -891,6 +957,7 @@ pub fn run(ctx: &mut Ctx) {
 			2 => 2,
 			3..=5 => 3,
 			6 => 5,
+			8 => 6,
 			_ => 4,
 		};
 		match res {
@@ -908,7 +975,7 @@ pub fn run(ctx: &mut Ctx) {
 			Err(p) => ctx.violation("meas", i, &format!("panic: {}", p.first().map(|p| p.sig()).unwrap_or_default()), J::Null),
 		}
 	}
-	for (k, name) in ["duration_and_pitch", "clock_scheduled_start", "tween_duration", "delay_echo_time", "filter_gain_at_cutoff", "reverb_first_reflection_time"].iter().enumerate() {
+	for (k, name) in ["duration_and_pitch", "clock_scheduled_start", "tween_duration", "delay_echo_time", "filter_gain_at_cutoff", "reverb_first_reflection_time", "compressor_attack_time"].iter().enumerate() {
 		ctx.count(&format!("measured_{}", name), measured[k]);
 	}
 	ctx.sample(jobj! {"monitor" => "rate-in-force probe + seconds/hertz measurements", "rates" => J::A(RATES.iter().map(|x| J::F(*x as f64)).collect()), "history_alphabet" => J::A(OP_NAMES.iter().map(|x| J::S(x.to_string())).collect())});
